@@ -11,6 +11,8 @@ use crate::token::verif_stub as st;
 use flussab::verif_q as q;
 use flussab::{DeferredReader, Refill};
 
+include!("@VERIF@/harness/common/alloc_stub.rs");
+
 type L = u8;
 const MAXL: usize = <L as Lit>::MAX_CODE;
 
@@ -706,6 +708,46 @@ pub fn w_ordered_document_order() {
     std::mem::forget(aig);
     std::mem::forget(w);
 }
+
+/// C05 (memory clause): `parse()` pre-allocates its sections from the header; for EVERY header
+/// (counts up to usize::MAX) every reserve / with_capacity stays below the constant bound, so a
+/// tiny input that merely declares huge counts cannot make the parser allocate. Here the input
+/// ends right after the header (every section reader fails at its first token or is skipped).
+#[kani::proof]
+#[kani::stub(std::vec::Vec::reserve, alloc_stub::reserve)]
+#[kani::stub(std::vec::Vec::with_capacity, alloc_stub::with_capacity)]
+pub fn parse_prealloc_bound() {
+    st::reset(0);
+    unsafe {
+        st::CUT_AFTER_PREALLOC = true;
+    }
+    let header = Header {
+        max_var_index: kani::any(),
+        input_count: kani::any(),
+        latch_count: kani::any(),
+        output_count: kani::any(),
+        and_gate_count: kani::any(),
+        bad_state_property_count: kani::any(),
+        invariant_constraint_count: kani::any(),
+        justice_property_count: kani::any(),
+        fairness_constraint_count: kani::any(),
+    };
+    kani::assume(header.max_var_index <= (usize::MAX - 1) / 2);
+    kani::assume(header.input_count <= header.max_var_index);
+    kani::assume(header.latch_count <= header.max_var_index - header.input_count);
+    kani::assume(header.and_gate_count <= header.max_var_index - header.input_count - header.latch_count);
+    let parser = verif_make_parser::<u64>(any_reader(), header);
+    let r = parser.parse();
+    unsafe {
+        kani::cover!(alloc_stub::RESERVE_CALLS >= 6, "section pre-allocations reached");
+    }
+    std::mem::forget(r);
+}
+
+// (The sizes declared in the BODY (justice property sizes) are read deep inside `parse()`; the
+// whole function is out of reach of the solver even with an input that ends after the header, so
+// the harness above stops `parse()` right after its pre-allocation block through a cfg(kani) cut
+// point, and allocations driven by body counts are outside the claim.)
 
 #[kani::proof]
 pub fn reach_ascii_t3() {
